@@ -262,6 +262,16 @@ fn dump_body<'tcx>(cx: &mut Ctx<'tcx>, did: DefId, body: &Body<'tcx>) -> String 
                             }
                         }
                     }
+                    // constants handed to a const fn in the promoted body, e.g. RangeInclusive::new(1, 16384)
+                    if let Some(term) = &data.terminator {
+                        if let TerminatorKind::Call { args, .. } = &term.kind {
+                            for a in args.iter() {
+                                if let Operand::Constant(c) = &a.node {
+                                    cs.push(const_json(cx, &c.const_, penv));
+                                }
+                            }
+                        }
+                    }
                 }
                 pv.push(arr(&cs));
             }
